@@ -15,6 +15,7 @@ RULE = ("every sequence of length n over the alphabet (all input orders): quick 
         "definition. distinct_nontrivial = number of distinct labelled dominance relations (verdict matrices) realised "
         "that contain at least one dominance pair; evaluations = sequences sorted.")
 ASSUMPTIONS = ["the sorter sees costs only through the comparator verdicts (C01 checks the comparator)",
+               "one selector object sorts every population of a shard, and ids repeat from population to population (distinct objects)",
                "individual ids are unique within a population (as produced by Individual.counter)"]
 
 V3 = (0.0, 1.0, 2.0)
@@ -48,6 +49,9 @@ def selector():
 def sort_population(costs, order=None):
     """order: permutation giving the creation order of the list positions (ids follow creation order)."""
     from artap.individual import Individual
+    # ids restart for every population (as after deepcopy / reload from a store): they are unique within a population,
+    # but the one selector object used for the whole enumeration sees the same ids again on different objects
+    Individual.counter = 0
     pop = [None] * len(costs)
     for pos in (order if order is not None else range(len(costs))):
         ind = Individual([0.0])
